@@ -200,7 +200,7 @@ func (m *modelL1) stepDeposit(x *ophosttypes.MsgInitiateTokenDeposit, bc blockCt
 		p.failBecause("deposit.no-such-bridge", "deposit-to-nonexistent-bridge", "C10", "C01", "C16")
 	}
 	if oks && x.Amount.IsValid() && x.Amount.IsPositive() && m.Bal.get(sender, x.Amount.Denom).Cmp(x.Amount.Amount.BigInt()) < 0 {
-		p.failBecause("deposit.insufficient-funds", "insufficient-funds", "C01")
+		p.failBecause("deposit.insufficient-funds", "insufficient-funds", "C01", "C10", "C08")
 	}
 	if x.Amount.IsValid() && !x.Amount.Amount.IsUint64() && p.Kind != mustFail {
 		// a deposit that does not fit 64 bits can be minted on L2 but its refund
